@@ -431,7 +431,7 @@ DISCOVER = ['discover', b'{"SECoP": "discover"}'.hex()]
 
 
 def build_case(g, b, mode, salt):
-    desc = concretise(g, salt)
+    desc = concretise(g, salt) or (None if salt & 2 else '')
     shape = SHAPES[(salt + b) % len(SHAPES)]
     ifs = IFACES[shape][salt % len(IFACES[shape])]
     if mode == 'patched':
@@ -571,6 +571,109 @@ def _replay_loop(item):
             return {'sig': signature(clause, case, tr, l), 'case': case, 'trace': tr, 'failed_at': l,
                     'expected': exp, 'step': i}
     return None
+
+
+# ------------------------------------------------------------------ server wiring (DiscoveryServer.tla)
+
+SRV_DESCR = ['node', 'd\u00e9sc "q"\n\U0001f604', '', 'x' * 600]
+
+
+def execute_server(case):
+    """case: ifaces [kind...], ops [restart|shutdown...], eq, descr, bare_main, salt
+    -> trace in the vocabulary of Trace_DiscoveryServer (one event per operation, each followed by a probe)"""
+    import re
+    from ..discworld import World
+    D = disc()
+    D.MAX_MESSAGE_LEN = _ORIG_MAX
+    w = World(case, D.socket)
+    acase = {'eq': case['eq'], 'desc': ''}
+    sender = ('10.0.0.9', 40000)
+
+    def idx(port):
+        return w.ports.index(port) + 1 if port in w.ports else 0
+
+    def project(msgs, answer):
+        pairs, ok = [], True
+        for raw, dest in msgs:
+            m = alpha_msg(raw, acase, w.ports, sender=sender, dest=dest)
+            mt = re.match(r'g(\d+) ', m.get('_desc', ''))
+            full = mt is not None and w.descr(int(mt.group(1))).startswith(m['_desc'])    # maybe truncated
+            pairs.append([int(mt.group(1)) if full else 0, m['port']])
+            ok = ok and m['len'] <= REAL_MAX and all(m[k] for k in ('utf8', 'json', 'obj', 'secop', 'eq', 'fw', 'desc')) \
+                and (not answer or m['dest'] == 'sender')
+        return pairs, ok
+
+    trace = []
+    try:
+        for op in ['boot'] + list(case['ops']):
+            n = len(w.sockets)
+            came_up = getattr(w, op)()
+            announce, ok1 = project(w.sockets[-1].sent[:] if came_up and len(w.sockets) > n else [], False)
+            answers, ok2 = project([(raw, dest) for _, raw, dest in w.probe(sender)], True)
+            ev = {'ev': op, 'listening': sorted(idx(p) for p in w.listening), 'announce': announce,
+                  'answers': answers, 'ok': ok1 and ok2, 'error': w.error, 'responders': w.running_responders()}
+            if op == 'boot':
+                ev['cfg'] = list(case['ifaces'])
+            trace.append(ev)
+            if w.error:
+                break
+    finally:
+        w.close()
+    return trace
+
+
+def server_case(kinds, ops, salt):
+    return {'ifaces': list(kinds), 'ops': list(ops), 'eq': EQ_IDS[salt % len(EQ_IDS)] or 'n',
+            'descr': SRV_DESCR[salt % len(SRV_DESCR)], 'bare_main': bool(salt % 3 == 0), 'arg_main': bool(salt % 4 == 1),
+            'salt': salt}
+
+
+def _replay_server(item):
+    idx, beh, seed = item
+    case = server_case(beh[0]['cfg'], [s['act'] for s in beh[1:]], seed + idx)
+    tr = execute_server(case)
+    diff = None
+    for i, st in enumerate(beh):
+        ev = tr[i] if i < len(tr) else {}
+        got = {'listening': ev.get('listening'), 'answers': sorted(ev.get('answers', [[-1, -1]])),
+               'clean': ev.get('ok') and not ev.get('error')}
+        exp = {'listening': sorted(st['exp']['listening']), 'answers': sorted(st['exp']['answers']), 'clean': True}
+        if got != exp:
+            diff = {'step': i + 1, 'expected': exp, 'observed': got}
+            break
+    return case, tr, diff
+
+
+def _random_server(seed):
+    rnd = random.Random(seed)
+    kinds = [rnd.choice(['tcp_up', 'tcp_up', 'tcp_fail', 'ws_up', 'ws_fail']) for _ in range(rnd.randint(1, 5))]
+    ops = ['restart'] * rnd.choice([0, 0, 1, 1, 2, 4]) + (['shutdown'] if rnd.random() < 0.8 else [])
+    if not any(k.endswith('up') for k in kinds):
+        ops = []
+    case = server_case(kinds, ops, rnd.randrange(1000))
+    case['eq'] = rnd.choice(EQ_IDS[:3] + ['node.' + rand_text(rnd, rnd.randint(1, 20), False)]) or 'n'
+    return case, execute_server(case), None
+
+
+def server_signature(clause, trace, l):
+    return {'module': 'DiscoveryServer', 'clause': clause}
+
+
+def validate_server(chk, triples, what):
+    traces = [tr for _, tr, _ in triples]
+    verdicts, st, trn = validate_traces('Trace_DiscoveryServer', traces, 'Trace_DiscoveryServer.cfg')
+    chk.states += st
+    chk.transitions += trn
+    for i, v in verdicts.items():
+        case, tr, diff = triples[i]
+        chk.impl_traces += 1
+        chk.case('%s:%s' % (what, json.dumps(case, sort_keys=True)), len(tr) > 1)
+        if v is not None:
+            chk.violation(server_signature(v[1], tr, v[0]),
+                          {'server_case': case, 'trace': tr, 'failed_at': v[0], 'clause': v[1]})
+        elif diff:      # TLC accepts the execution but it is not the behaviour TLC emitted
+            chk.violation({'module': 'DiscoveryServer', 'clause': 'replay differs from the emitted behaviour'},
+                          {'server_case': case, 'trace': tr, **diff})
 
 
 # ------------------------------------------------------------------ code -> spec: random drivers
@@ -778,12 +881,19 @@ def run(chk):
 
     # all TLC jobs of the design / emission stage are started together (each is a JVM of its own)
     ex = ThreadPoolExecutor(4 if quick else 8)
-    parsed = [ex.submit(sany, m) for m in ('Discovery', 'Gen_Discovery', 'Trace_Discovery')]
+    parsed = [ex.submit(sany, m) for m in ('Discovery', 'Gen_Discovery', 'Trace_Discovery', 'DiscoveryServer',
+                                           'Gen_DiscoveryServer', 'Trace_DiscoveryServer')]
     mc = [ex.submit(model_check, 'Discovery', 'MC_Discovery_quick.cfg' if quick else 'MC_Discovery_thorough.cfg',
                     timeout=1100),
-          ex.submit(model_check, 'Discovery', 'MC_Discovery_loop.cfg', timeout=300)]
+          ex.submit(model_check, 'Discovery', 'MC_Discovery_loop.cfg', timeout=300),
+          ex.submit(model_check, 'DiscoveryServer', 'MC_DiscoveryServer.cfg', timeout=300)]
     devs = [(dev, inv, ex.submit(run_tlc, 'Discovery', 'MC_Discovery_asimpl_%s.cfg' % dev, timeout=300, workers=1))
             for dev, inv in (('disable', 'BuildSound'), ('announce', 'AnnounceBounded'), ('loop', 'Alive'))]
+    devs += [(dev, inv, ex.submit(run_tlc, 'DiscoveryServer', 'MC_DiscoveryServer_asimpl_%s.cfg' % dev, timeout=300,
+                                  workers=1))
+             for dev, inv in (('restart', 'OneResponder'), ('ports', 'AnswersTrue'))]
+    gen_srv = ex.submit(emit_behaviours, 'Gen_DiscoveryServer', 'Gen_DiscoveryServer_quick.cfg' if quick else
+                        'Gen_DiscoveryServer_thorough.cfg', maximal_only=False, timeout=300)
     cfg = 'Gen_Discovery_build_quick.cfg' if quick else 'Gen_Discovery_build_thorough.cfg'
 
     gen_loop = ex.submit(emit_behaviours, 'Gen_Discovery', 'Gen_Discovery_loop_quick.cfg' if quick else
@@ -801,6 +911,7 @@ def run(chk):
             raise MachineryError(f'the specification lost its teeth: as-implemented design {dev} does not '
                                  f'violate {inv}: {r.violated or r.error}')
     gen_loop = gen_loop.result()
+    gen_srv = gen_srv.result()
     shards = [f.result() for f in shards]
     ex.shutdown(wait=True)      # no TLC thread is alive when worker processes are forked
     stage('design checks and behaviour emission')
@@ -843,6 +954,14 @@ def run(chk):
     chk.sample({'loop_behaviour': [{k: v for k, v in s.items()} for s in behs[len(behs) // 3]]})
 
     stage('loop replay')
+    # 3b server wiring: every interface list x boot / restart* / shutdown on the real Server, plus random ones
+    r, behs = gen_srv
+    chk.add_tlc(r)
+    triples = pool_map(_replay_server, [(i, beh, chk.seed) for i, beh in enumerate(behs)])
+    triples += pool_map(_random_server, [chk.seed * 1000211 + 5 + i for i in range(60 if quick else 1500)])
+    validate_server(chk, triples, 'server')
+    chk.sample({'server_trace': triples[len(behs) // 2][1]})
+    stage('server wiring')
     # 4 code -> spec
     n = 1200 if quick else 12000
     res = pool_map(_random_build, [(chk.seed * 1000003 + i, mode_ascii) for i in range(n)])
@@ -859,6 +978,16 @@ def run(chk):
 
 def replay(chk, rep):
     d = rep['detail']
+    if 'server_case' in d:
+        calibrate()
+        print('case:', json.dumps(d['server_case']))
+        tr = execute_server(d['server_case'])
+        for e in tr:
+            print(json.dumps(e))
+        verdicts, _, _ = validate_traces('Trace_DiscoveryServer', [tr], 'Trace_DiscoveryServer.cfg')
+        print('TLC verdict:', 'accepted' if verdicts[0] is None else 'rejected at event %d: %s' % verdicts[0])
+        print('recorded   :', rep['signature'])
+        return 0 if verdicts[0] is None else 1
     os.environ['DISCOVERY_ASCII'] = '1' if calibrate() else '0'
     print('case:', json.dumps(d['case'])[:1500])
     tr = execute(d['case'])
